@@ -290,3 +290,24 @@ gpanic! { fn c16_union_clone_second_overflow_aborts() {
     core::mem::forget(u);
     core::mem::forget(u2);
 } }
+
+// @h props=C14 fuc=ArcUnion::eq note="statement of C14: same-variant unions compare as the values they hold"
+gproof! { fn c14_union_eq_same_variant_by_value() {
+    let (x, y): (u8, u8) = (kani::any(), kani::any());
+    let u1: ArcUnion<u8, u16> = ArcUnion::from_first(Arc::new(x));
+    let u2: ArcUnion<u8, u16> = ArcUnion::from_first(Arc::new(y));
+    assert!((u1 == u2) == (x == y), "F2 ArcUnion == (same variant) is not value equality");
+    core::mem::forget(u1);
+    core::mem::forget(u2);
+} }
+
+// @h props=C14 fuc=ArcUnion::fmt note="statement of C14: formatting a union formats the value it holds"
+gproof! { fn c14_union_debug_by_value() {
+    use crate::vrt::{Ip, OP_DEBUG};
+    let a = Arc::new(Ip(kani::any()));
+    let d0 = data(&a);
+    let u: ArcUnion<Ip, u16> = ArcUnion::from_first(a);
+    let ok = vrt::debug_ok(&u);
+    assert!(vrt::ip_calls(OP_DEBUG) == 1 && unsafe { vrt::IP_SELF } == d0, "F2 ArcUnion Debug does not format the value");
+    core::mem::forget(u);
+} }
